@@ -67,6 +67,45 @@ pub fn families(prop: &str, tier: Tier) -> Vec<Cfg> {
         x.dev = 0;
         v.push(x);
     }
+    // a session that lives through five connections; and one configured with Session Expiry Interval 0 (the broker
+    // never has a session to resume)
+    const LONG: [&str; 7] = ["C02", "C03", "C05", "C06", "C12", "C16", "C18"];
+    if let Some(p) = LONG.iter().find(|p| **p == prop) {
+        let q = tier == Tier::Quick;
+        let names: [(&str, &str); 7] = [
+            ("C02-five-connections", "C02-session-expiry-zero"),
+            ("C03-five-connections", "C03-session-expiry-zero"),
+            ("C05-five-connections", "C05-session-expiry-zero"),
+            ("C06-five-connections", "C06-session-expiry-zero"),
+            ("C12-five-connections", "C12-session-expiry-zero"),
+            ("C16-five-connections", "C16-session-expiry-zero"),
+            ("C18-five-connections", "C18-session-expiry-zero"),
+        ];
+        let (n5, n0) = names[LONG.iter().position(|x| x == p).unwrap()];
+        let mut x = Cfg::base(n5);
+        x.props = vec![p];
+        x.ops = vec![OpK::Pub1, OpK::Pub2, OpK::Sub, OpK::Poll, OpK::DropConn];
+        x.io = IoMenu::benign();
+        x.broker.may_lose_session = true;
+        x.broker.receive_max = vec![Some(2)];
+        x.max_ops = if q { 9 } else { 11 };
+        x.max_conns = 5;
+        x.max_reqs = 2;
+        x.dev = 0;
+        v.push(x);
+        let mut z = Cfg::base(n0);
+        z.props = vec![p];
+        z.expiry = 0;
+        z.ops = vec![OpK::Pub1, OpK::Pub2, OpK::Sub, OpK::Poll, OpK::DropConn];
+        z.io = IoMenu::benign();
+        z.io.write_pending = true;
+        z.cancel = true;
+        z.max_ops = if q { 7 } else { 8 };
+        z.max_conns = 3;
+        z.max_reqs = 2;
+        z.dev = 1;
+        v.push(z);
+    }
     // successful acknowledgements in every legal form (shortest, explicit reason code, explicit property length,
     // with Reason String and User Properties)
     const FORMS: [(&str, &str); 6] = [
